@@ -177,7 +177,8 @@ def run(ctx: Ctx) -> int:
                 lcd.tick(now)
                 flags = ""
                 for i, st in enumerate(states):
-                    stepped = before[i][1] and st.last_tick == now and (before[i][0] != now)
+                    after = (st.last_tick, st.active, st.offset, st.visible, st.show, st.cycles)
+                    stepped = before[i][1] and after != before[i]
                     flags += "s" if stepped else "-"
                     if stepped:
                         steps[i] += 1
